@@ -381,3 +381,46 @@ def dump_fn(F, b, out=None):
         if t and t['k'] == 'switch':
             n = len(b.blocks[bi]['stmts'])
             w('SW bb%d %s %s else %s\n' % (bi, fmt(detry(tb.operand_term(t['discr'], bi, n))), t['targets'], t['otherwise']))
+
+
+_RET_CACHE = {}
+
+
+def return_term_of(F, body):
+    k = (id(F), body.path)
+    if k not in _RET_CACHE:
+        _RET_CACHE[k] = TermBuilder(F, body).return_term()
+    return _RET_CACHE[k]
+
+
+def success_alts(t):
+    """Alternatives of a returned term that are not explicit errors / `?` residuals / None."""
+    out = []
+    for a in phi_alts(t):
+        if isinstance(a, tuple) and a:
+            if a[0] == 'agg' and a[2] in ('Err', 'None'):
+                continue
+            if m_call(a, name='from_residual') is not None:
+                continue
+        out.append(a)
+    return out
+
+
+def inline(F, t, depth=6, stack=()):
+    """Expand calls to crate-local functions that have a single success value, substituting parameters.
+    Ok(..)/`?` wrappers are erased along the way.  Used to look through thin constructor wrappers."""
+    if depth <= 0 or not isinstance(t, tuple) or not t:
+        return t
+    t = detry(t)
+    if t[0] == 'agg' and t[2] in ('Ok', 'Some') and (t[1].endswith('Result') or t[1].endswith('Option')) and len(t[3]) == 1:
+        return inline(F, t[3][0], depth, stack)
+    if t[0] == 'call':
+        c = CALLEES.get(t[1])
+        if c is not None:
+            b = F.by_hash.get(c.best_hash)
+            if b is not None and b.path not in stack and b.dk != 'Closure' and len(t[2]) == b.arg_count:
+                alts = success_alts(return_term_of(F, b))
+                if len(alts) == 1 and not contains(alts[0], lambda x: x[0] in ('rec', 'undef', 'unknown')):
+                    m = {('param', i + 1): a for i, a in enumerate(t[2])}
+                    return inline(F, subst(alts[0], m), depth - 1, stack + (b.path,))
+    return t
